@@ -45,16 +45,20 @@ class K:
 
 
 class T:
-    __slots__ = ("op", "args")
+    __slots__ = ("op", "args", "_h")
 
     def __init__(self, op, *args):
         self.op, self.args = op, tuple(args)
+        self._h = None
 
     def __eq__(self, o):
-        return isinstance(o, T) and o.op == self.op and o.args == self.args
+        return o is self or (isinstance(o, T) and o.op == self.op and hash(o) == hash(self) and o.args == self.args)
 
     def __hash__(self):
-        return hash(("T", self.op, self.args))
+        h = self._h
+        if h is None:
+            h = self._h = hash(("T", self.op, self.args))
+        return h
 
     def __repr__(self):
         if self.op in ("+", "-", "*", "/") and len(self.args) == 2:
